@@ -5,15 +5,22 @@
            | (5 <0 explicit | 1 introspected, parses | 2 introspected, does not parse> <key>)   getRemoteObject
            | (6 <owner> <cb>)  notifyOnDisconnect      | (7 <owner> <cb>)  cancelNotifyOnDisconnect
    owner ::= () the connection | (q) the proxy of getRemoteObject request q
-   Answer: ((<step> ...) <spec connect outcome: () | (0) ready | (1) failed> <final phase code>)
+   optional 6th argument: ((<cb> (<action> ...)) ...)   what callbacks do when they run during the loss
+   action ::= (0 <timeout: () | (n)>) call | (1 <owner> <cb>) register | (2 <owner> <cb>) cancel
+   mode (2nd argument): 0 current tree | 1 before D12/D13 (callbacks passive) | 2 before D62/D63
+   Answer: ((<step> ...) <spec connect outcome: () | (0) ready | (1) failed> <final phase code>
+            <fired by connect() itself> (<completion when every armed timer is let run at the end> ...))
    step  ::= (<fired: 0 ready | 1 failed ...> (<completion of a user call> ...) (<pending serial> ...)
               (<timer serial> ...) ((<owner> <cb> <reason>) ...) ((<request> <0|1>) ...) <raised 0|1>
               <closing 0|1> <endpoint being tried: () | (index)> <loss spec>)
    loss spec ::= (0)                                   this event is not the loss of a ready connection
               | (1 (<completion> ...) ((<owner> <cb> <reason>) ...) ((<request> 0) ...))
+                 <Deferreds issued before> <Deferreds issued after>)
                 what Spec/ConnectSpec.v demands of this step: expected_failures (user calls / proxy
-                requests apart) and expected_runs, computed from the snapshot before the event *)
-From Tx Require Import Lib.Base Lib.Sexp Model.Calls Spec.CallSpec Model.OpsC08 Model.Connect Spec.ConnectSpec.
+                requests apart) and expected_runs_reentrant, computed from the snapshot before the event
+                and the one after the connection-level callbacks; every Deferred issued in between
+                must have failed with the reason *)
+From Tx Require Import Lib.Base Lib.Sexp Model.Calls Spec.CallSpec Model.OpsC08 Model.Connect Model.ConnectRe Spec.ConnectSpec.
 Local Open Scope Z_scope.
 
 Definition akind_of (s : sexp) : option akind :=
@@ -67,29 +74,54 @@ Definition user_call (st : Connect.state) (id : nat) : bool :=
   | S _ => match alist_get Nat.eqb id (st_intro st) with Some _ => false | None => true end
   end.
 
-Definition loss_spec (st : Connect.state) (e : Connect.event) : sexp :=
+Definition loss_spec (acts : assignment) (st st' : Connect.state) (e : Connect.event) : sexp :=
   match e, st_phase st with
   | ECalls (ELost r), Ready =>
       let b := snap st in
+      let m := snap (conn_phase acts (set_open st false) r) in
       let fails := expected_failures r b in
       SList [SNum 1;
              SList (map scompletion (filter (fun x => user_call st (fst x)) fails));
-             SList (map srun (expected_runs r b));
+             SList (map srun (expected_runs_reentrant r b m));
              SList (flat_map (fun x => match alist_get Nat.eqb (fst x) (st_intro st) with
                                        | Some (q, _, _) => [SList [snat q; SNum 0]]
                                        | None => []
-                                       end) fails)]
+                                       end) fails);
+             snat (sn_issued b); snat (sn_issued (snap st'))]
   | _, _ => SList [SNum 0]
+  end.
+
+Definition action_of (s : sexp) : option action :=
+  match s with
+  | SList [SNum 0; t] => option_map ACall (as_opt as_N t)
+  | SList [SNum 1; o; SNum cb] => option_map (fun o => AReg o (Z.to_N cb)) (owner_of o)
+  | SList [SNum 2; o; SNum cb] => option_map (fun o => ACancel o (Z.to_N cb)) (owner_of o)
+  | _ => None
+  end.
+
+Definition acts_entry_of (s : sexp) : option (N * list action) :=
+  match s with
+  | SList [SNum cb; SList l] => option_map (fun l => (Z.to_N cb, l)) (map_opt action_of l)
+  | _ => None
+  end.
+
+Definition fuel_legacy : nat := 200.
+
+Definition step_mode (mode : Z) (acts : assignment) (st : Connect.state) (e : Connect.event) : Connect.state :=
+  match mode with
+  | 1 => step_legacy st e
+  | 2 => step_re_legacy fuel_legacy acts st e
+  | _ => step_re acts st e
   end.
 
 Definition total_eps (addr : list akind) : nat := endpoint_count addr.
 
-Fixpoint steps (legacy : bool) (total : nat) (st : Connect.state) (evs : list Connect.event)
+Fixpoint steps (mode : Z) (acts : assignment) (total : nat) (st : Connect.state) (evs : list Connect.event)
   : list sexp * Connect.state :=
   match evs with
   | [] => ([], st)
   | e :: r =>
-      let st' := if legacy then step_legacy st e else Connect.step st e in
+      let st' := step_mode mode acts st e in
       let newdone := skipn (length (st_done (st_calls st))) (st_done (st_calls st')) in
       let obs := SList [ SList (map scres (skipn (length (st_fired st)) (st_fired st')));
                          SList (map scompletion (filter (fun x => user_call st' (fst x)) newdone));
@@ -103,24 +135,34 @@ Fixpoint steps (legacy : bool) (total : nat) (st : Connect.state) (evs : list Co
                          | Trying rest => SList [snat (total - rest - 1)]
                          | _ => SList []
                          end;
-                         loss_spec st e ] in
-      let (l, fin) := steps legacy total st' r in
+                         loss_spec acts st st' e ] in
+      let (l, fin) := steps mode acts total st' r in
       (obs :: l, fin)
+  end.
+
+(* the reactor runs every delayed call that is still armed *)
+Definition late_completions (st : Connect.state) : list sexp :=
+  let st' := fold_left (fun s serial => Connect.step s (ECalls (ETimer serial)))
+                       (timer_serials (st_calls st)) st in
+  map scompletion (filter (fun x => user_call st' (fst x))
+                          (skipn (length (st_done (st_calls st))) (st_done (st_calls st')))).
+
+Definition op_with (mode : Z) (addr evs acts : list sexp) (s0 : Z) : sexp :=
+  match map_opt akind_of addr, map_opt event_of evs, map_opt acts_entry_of acts with
+  | Some addr, Some evs, Some tbl =>
+      let s0 := Z.to_N s0 in
+      let (obs, fin) := steps mode (table_assignment tbl) (total_eps addr) (Connect.init addr s0) evs in
+      SList [ SList obs;
+              sopt scres (connect_outcome addr s0 evs);
+              SNum (phase_code (st_phase fin));
+              SList (map scres (st_fired (Connect.init addr s0)));
+              SList (late_completions fin) ]
+  | _, _, _ => bad
   end.
 
 Definition op (args : list sexp) : sexp :=
   match args with
-  | [SNum legacy; SList addr; SNum s0; SList evs] =>
-      match map_opt akind_of addr, map_opt event_of evs with
-      | Some addr, Some evs =>
-          let s0 := Z.to_N s0 in
-          let legacy := negb (Z.eqb legacy 0) in
-          let (obs, fin) := steps legacy (total_eps addr) (Connect.init addr s0) evs in
-          SList [ SList obs;
-                  sopt scres (connect_outcome addr s0 evs);
-                  SNum (phase_code (st_phase fin));
-                  SList (map scres (st_fired (Connect.init addr s0))) ]
-      | _, _ => bad
-      end
+  | [SNum mode; SList addr; SNum s0; SList evs] => op_with mode addr evs [] s0
+  | [SNum mode; SList addr; SNum s0; SList evs; SList acts] => op_with mode addr evs acts s0
   | _ => bad
   end.
